@@ -60,6 +60,7 @@ def cases(rng, tier):
         out.append({'kind': kind, 'model': model, 'L': L, 'seed': rng.getrandbits(30), 'dt': rng.choice([0.01, 0.05, 0.2, -0.1, 0.5]),
                     'steps': rng.choice([1, 1, 2, 3]), 'numiter': rng.choice([1, 2, 3, 4, 6]), 'repeat': rng.choice([1, 1, 2]),
                     'Dmax': rng.choice([1, 2, 3, 4]), 'scale': rng.choice([1.0, 2.5, 0.3]),
+                    'prep': rng.choice(['none', 'none', 'none', 'left']), 'between': rng.choice(['none', 'none', 'left']),
                     'sdtype': 'real' if rng.random() < 0.35 else 'complex'})
     SR.mark_replay(out, {'quick': 24, 'thorough': 120, 'search': 0}[tier], 'steps')
     return out
@@ -75,6 +76,8 @@ def impl(case):
     L = H.nsites
     psi = T.state(H, rs, Dmax=case['Dmax'], dtype=case.get('sdtype', 'complex'))
     psi.A[0] = psi.A[0] * case['scale']
+    if case.get('prep') == 'left' and float(np.linalg.norm(G.mps_dense(psi.A))) > 1e-10:
+        psi.orthonormalize(mode='left')     # a normalised start that is NOT in the right-canonical form the sweep needs
     v0 = G.mps_dense(psi.A)
     n0 = float(np.linalg.norm(v0))
     if n0 < 1e-10:
@@ -92,6 +95,8 @@ def impl(case):
     import pytenet.evolution as EV
     try:
         for rep in range(case['repeat']):
+            if rep > 0 and case.get('between', 'none') != 'none':
+                psi.orthonormalize(mode=case['between'])
             if case['kind'] == 'single':
                 ret, run = SR.run_recorded(EV, ptn.integrate_local_singlesite, H, psi, dt, case['numiter'], numeric,
                                            dt, case['steps'], numiter_lanczos=case['numiter'])
